@@ -293,7 +293,7 @@ func (c *Ctx) errLeavesUp(k *ssa.Call, depth int) string {
 	if depth > ipG1MaxDepth {
 		return "the callers of " + fnName(fn) + " (call chain too deep to follow)"
 	}
-	sites := c.callSites(fn)
+	sites := c.h1AllSites(fn) // ip_h1.go: also the calls made through method values kept in local tables
 	if sites == nil {
 		return "the callers of " + fnName(fn) + " (its call sites cannot be enumerated)"
 	}
